@@ -37,8 +37,10 @@ Rng(q) == { q[i] : i \in 1..Len(q) }
 F32(v) == << <<v % 65536, 16>>, <<(v \div 65536) % 65536, 16>> >>          \* a 32-bit field as two halves (TLC integers are 32 bit signed)
 Str(bytes) == [i \in 1..Len(bytes) |-> <<bytes[i], 8>>]
 Vorbis == <<118, 111, 114, 98, 105, 115>>
-\* a small non-negative integer as the packed float of the format (mantissa, biased exponent 788)
-PackedInt(v) == 788 * 2097152 + v
+\* a small integer as the packed float of the format (21-bit mantissa, biased exponent 788 = 2^0, sign in bit 31); the 32-bit pattern is held as a
+\* signed TLC integer, which F32 splits into halves correctly for negative values too
+PackedInt(v) == IF v >= 0 THEN 788 * 2097152 + v ELSE (788 * 2097152 - v) - 2147483647 - 1
+Unpacked(p) == IF p >= 0 THEN p - 788 * 2097152 ELSE -((p + 2147483647 + 1) - 788 * 2097152)
 
 (* ------------------------------ writer ------------------------------ *)
 IdFields(s) ==
